@@ -6,7 +6,9 @@
 package main
 
 import (
+	"encoding/json"
 	"errors"
+	"flag"
 	"fmt"
 	"os"
 	"reflect"
@@ -14,8 +16,10 @@ import (
 	"strconv"
 	"strings"
 
+	"github.com/EliCDavis/jbtf"
 	"github.com/EliCDavis/polyform/generator/parameter"
 	"github.com/EliCDavis/polyform/nodes"
+	"github.com/EliCDavis/polyform/refutil"
 )
 
 func init() { streams["c11"] = runC11 }
@@ -343,10 +347,16 @@ type c11Node struct {
 	kind   byte // 'P' nodes.ValueNode, 'Q' parameter.Value, 'S' nodes.Struct
 	node   nodes.Node
 	outs   []c11In                     // handles usable in a Data literal / for reading
-	refs   []nodes.NodeOutputReference // handles usable in nodes.Output{NodeOutput: ...}
-	cached func() int                  // stored value, read WITHOUT triggering evaluation
-	vn     *nodes.ValueNode[int]
-	pv     *parameter.Value[int]
+	refs   []nodes.NodeOutputReference // handles usable in nodes.Output{NodeOutput: ...} (same values as outs)
+	hnames []string                    // how each handle was obtained (parallel to outs / refs)
+	// sources (P / Q nodes): which public constructor made it, how often it was updated, and how
+	// often consumers were read while it had never been updated
+	srcKind                 string
+	sets                    int
+	consumerReads, farReads int
+	cached                  func() int // stored value, read WITHOUT triggering evaluation
+	vn                      *nodes.ValueNode[int]
+	pv                      *parameter.Value[int]
 	// message family: composite parameters ('L' []int, 'T' c11AB, 'M' map[string]int) have no int
 	// output; they are read through readFn (= enc(Value())) and fed by apply (= ApplyMessage)
 	readFn func() int
@@ -369,12 +379,104 @@ func c11Wrap[G nodes.StructProcesor[int]](data G, useNew bool) *c11Node {
 	} else {
 		s = &nodes.Struct[int, G]{Data: data}
 	}
-	return &c11Node{kind: 'S', node: s,
-		outs: []c11In{s.Out(), s},
-		refs: []nodes.NodeOutputReference{s.Out(), s, s.Outputs()[0].NodeOutput},
+	n := &c11Node{kind: 'S', node: s, srcKind: "Struct",
 		cached: func() int {
 			return int(reflect.ValueOf(s).Elem().FieldByName("value").Int())
 		}}
+	n.setHandles(
+		[]string{"Out()", "node-pointer", "Outputs()[0]", "hand-built-wrapper", "reflect-call-Out"},
+		[]c11In{s.Out(), s, s.Outputs()[0].NodeOutput.(c11In), nodes.StructOutput[int, G]{Struct: s, Name: "Out"},
+			refutil.CallFuncValuesOfType(s, "Out")[0].(c11In)})
+	return n
+}
+
+// every handle is usable both in a Data literal (nodes.NodeOutput[int]) and in nodes.Output{}
+func (n *c11Node) setHandles(names []string, outs []c11In) {
+	n.hnames, n.outs, n.refs = names, outs, nil
+	for _, o := range outs {
+		n.refs = append(n.refs, o)
+	}
+}
+
+// newSource builds a parameter-like node behind the token `P v` (nodes.ValueNode) or `Q v`
+// (parameter.Value) through one of the PUBLIC ways the two packages offer, chosen at random
+// (fixed: nodes.Value / the plain literal), with every public way to obtain an output handle:
+//
+//	P: nodes.Value(v) | nodes.FuncValue(func() int { return v }) | &nodes.ValueNode[int]{} (v = 0 only)
+//	Q: &parameter.Value[int]{DefaultValue: v} | the same with a CLI config initialised on a FlagSet,
+//	   flag given (DefaultValue is another number) | CLI config, flag not given | FromJSON with
+//	   currentValue v (defaultValue another number) | &parameter.Value[int]{} (v = 0 only)
+func c11NewSource(c *Ctx, tok byte, i, v int, fixed bool) *c11Node {
+	r := c.Rng
+	if tok == 'P' {
+		var vn *nodes.ValueNode[int]
+		kind := "Value"
+		pick := 0
+		if !fixed {
+			pick = r.Intn(4)
+		}
+		switch {
+		case !fixed && v == 0 && r.Intn(2) == 0:
+			kind, vn = "ZeroValueNodeLiteral", &nodes.ValueNode[int]{}
+		case pick >= 2:
+			kind, vn = "FuncValue", nodes.FuncValue(func() int { return v })
+		default:
+			vn = nodes.Value(v)
+		}
+		n := &c11Node{kind: 'P', node: vn, vn: vn, pval: v, srcKind: kind, cached: func() int { return vn.Value() }}
+		n.setHandles(
+			[]string{"node-pointer", "Out()", "Outputs()[0]", "hand-built-wrapper", "reflect-call-Out"},
+			[]c11In{vn, vn.Out(), vn.Outputs()[0].NodeOutput.(c11In), nodes.ValueNodeOutput[int]{Val: vn},
+				refutil.CallFuncValuesOfType(vn, "Out")[0].(c11In)})
+		return n
+	}
+	name := "p" + strconv.Itoa(i)
+	var pv *parameter.Value[int]
+	kind := "ParameterLiteral"
+	pick := 0
+	if !fixed {
+		pick = r.Intn(8)
+	}
+	switch {
+	case !fixed && v == 0 && r.Intn(5) < 2:
+		kind, pv = "ZeroParameterLiteral", &parameter.Value[int]{}
+	case pick >= 6:
+		// what the graph loader does: FromJSON installs currentValue as the applied value
+		kind, pv = "ParameterFromJSON", &parameter.Value[int]{}
+		body := fmt.Sprintf("{\"name\":%q,\"description\":\"c11\",\"currentValue\":%d,\"defaultValue\":%d,\"cli\":null}", name, v, v+7)
+		if err := pv.FromJSON(jbtf.Decoder{}, []byte(body)); err != nil {
+			panic(err)
+		}
+	case pick >= 4:
+		// CLI-configured, flag given: the value comes from the flag, DefaultValue is another number
+		kind = "ParameterCLIFlagGiven"
+		pv = &parameter.Value[int]{Name: name, DefaultValue: v + 1000, CLI: &parameter.CliConfig[int]{FlagName: name, Usage: "c11"}}
+		fs := flag.NewFlagSet("c11", flag.ContinueOnError)
+		pv.InitializeForCLI(fs)
+		if err := fs.Parse([]string{"-" + name + "=" + strconv.Itoa(v)}); err != nil {
+			panic(err)
+		}
+	case pick >= 2:
+		// CLI-configured, flag not given: the flag's default = DefaultValue
+		kind = "ParameterCLIFlagNotGiven"
+		pv = &parameter.Value[int]{Name: name, DefaultValue: v, CLI: &parameter.CliConfig[int]{FlagName: name, Usage: "c11"}}
+		fs := flag.NewFlagSet("c11", flag.ContinueOnError)
+		pv.InitializeForCLI(fs)
+		if err := fs.Parse(nil); err != nil {
+			panic(err)
+		}
+	default:
+		pv = &parameter.Value[int]{Name: name, DefaultValue: v}
+	}
+	if pv.Value() != v || pv.Version() != 0 {
+		panic(fmt.Sprintf("c11: %s does not start with value %d, version 0 (has %d, %d)", kind, v, pv.Value(), pv.Version()))
+	}
+	n := &c11Node{kind: 'Q', node: pv, pv: pv, pval: v, srcKind: kind, apply: pv.ApplyMessage, cached: func() int { return pv.Value() }}
+	n.setHandles(
+		[]string{"node-pointer", "Out()", "Outputs()[0]", "hand-built-wrapper", "reflect-call-Out"},
+		[]c11In{pv, pv.Out(), pv.Outputs()[0].NodeOutput.(c11In), parameter.ParameterNodeOutput[int]{Val: pv},
+			refutil.CallFuncValuesOfType(pv, "Out")[0].(c11In)})
+	return n
 }
 
 func c11NewStruct(id, salt int, rec *c11Rec, sc []c11In, ar [][]c11In, useNew bool) *c11Node {
@@ -697,6 +799,9 @@ func c11Shape(c *Ctx) *c11Plan {
 			v = 1 + r.Intn(99)
 		}
 		used[v] = true
+		if r.Intn(5) == 0 {
+			v = 0 // the zero-literal constructors can only express 0
+		}
 		p.pval[i] = v
 	}
 	return p
@@ -838,7 +943,17 @@ func (cs *c11Case) outOf(src int) c11In {
 	if cs.fixed {
 		return n.outs[0]
 	}
-	return n.outs[cs.c.Rng.Intn(len(n.outs))]
+	h := cs.c.Rng.Intn(len(n.outs))
+	cs.handleNote(n, h, "wired-in-literal")
+	return n.outs[h]
+}
+
+func (cs *c11Case) handleNote(n *c11Node, h int, use string) {
+	if n.srcKind == "" || h >= len(n.hnames) {
+		return
+	}
+	cs.c.Note("src.handle." + n.hnames[h])
+	cs.c.Note("src.handle." + n.srcKind + "." + n.hnames[h] + "." + use)
 }
 
 func (cs *c11Case) refOf(src int) nodes.NodeOutputReference {
@@ -846,7 +961,9 @@ func (cs *c11Case) refOf(src int) nodes.NodeOutputReference {
 	if cs.fixed {
 		return n.refs[0]
 	}
-	return n.refs[cs.c.Rng.Intn(len(n.refs))]
+	h := cs.c.Rng.Intn(len(n.refs))
+	cs.handleNote(n, h, "wired-by-SetInput")
+	return n.refs[h]
 }
 
 // observe all nodes without triggering evaluation; an observer that panics (it never does on the
@@ -950,12 +1067,18 @@ func (cs *c11Case) exec(o c11Op, ans *strings.Builder) (bool, int) {
 			n.node.SetInput(c11ArrName[o.b]+"."+strconv.Itoa(o.d), nodes.Output{})
 		case "rd":
 			h := 0
-			if (n.kind == 'S' || n.kind == 'K' || n.kind == 'W' || n.kind == 'N') && !cs.fixed {
-				h = cs.c.Rng.Intn(len(n.outs))
-			}
 			read := n.readFn
 			if read == nil {
+				if !cs.fixed {
+					h = cs.c.Rng.Intn(len(n.outs))
+					cs.handleNote(n, h, "read")
+				}
 				read = n.outs[h].Value
+				if !cs.fixed && cs.c.Rng.Intn(4) == 0 {
+					out := n.outs[h]
+					read = func() int { return nodes.TryGetOutputValue(out, -1) }
+					cs.c.Note("src.read-through-TryGetOutputValue")
+				}
 			}
 			cs.rec.log = nil
 			v1 = read()
@@ -996,6 +1119,28 @@ func (cs *c11Case) exec(o c11Op, ans *strings.Builder) (bool, int) {
 	cs.lastV1, cs.lastV2, cs.lastX, cs.lastY = v1, v2, x, y
 	// failing processors: executions that returned an error; reads strictly downstream of a node
 	// whose last Process() returned an error (the second read of the `rd` finds it in that state)
+	if o.kind == "sp" && ok {
+		n.sets++
+	}
+	if o.kind == "rd" && ok {
+		// reads of consumers of sources that have never been updated
+		var sc [][]int
+		var ar [][][]int
+		for p, m := range cs.nd {
+			if (m.kind != 'P' && m.kind != 'Q') || m.sets > 0 || p == o.a {
+				continue
+			}
+			if sc == nil {
+				sc, ar = cs.wiring()
+			}
+			if c11Reaches(sc, ar, o.a, p) {
+				m.consumerReads++
+				if cs.dist(o.a, p) >= 2 {
+					m.farReads++
+				}
+			}
+		}
+	}
 	if cs.rec.errs > 0 {
 		cs.c.notes["err.process-returned-error"] += cs.rec.errs
 		cs.rec.errs = 0
@@ -1025,6 +1170,30 @@ func (cs *c11Case) errNotes() {
 	}
 	if cs.readBelowErr {
 		cs.c.Note("err.graphs-with-read-below-failed-node")
+	}
+	// per source: how it was built and how often it was updated over the history
+	for _, m := range cs.nd {
+		if (m.kind != 'P' && m.kind != 'Q') || m.srcKind == "" {
+			continue
+		}
+		tag := "src." + m.srcKind
+		switch {
+		case m.sets == 0:
+			cs.c.Note(tag + ".never-set")
+			if m.consumerReads >= 2 {
+				cs.c.Note(tag + ".never-set.reads-of-consumers")
+			}
+			if m.farReads >= 1 {
+				cs.c.Note(tag + ".never-set.reads-2+-levels-above")
+			}
+		case m.sets == 1:
+			cs.c.Note(tag + ".set-once")
+		default:
+			cs.c.Note(tag + ".set-twice+")
+		}
+		if m.consumerReads > 0 {
+			cs.c.notes[tag+".reads-of-consumers-before-first-set.total"] += m.consumerReads
+		}
 	}
 }
 
@@ -1244,17 +1413,7 @@ func c11History(c *Ctx, deporder bool) {
 	for i := 0; i < N; i++ {
 		if plan.kind[i] != 'S' {
 			v := plan.pval[i]
-			var n *c11Node
-			if plan.kind[i] == 'P' {
-				vn := nodes.Value(v)
-				n = &c11Node{kind: 'P', node: vn, vn: vn, outs: []c11In{vn, vn.Out()},
-					refs: []nodes.NodeOutputReference{vn, vn.Out(), vn.Outputs()[0].NodeOutput}, cached: func() int { return vn.Value() }}
-			} else {
-				pv := &parameter.Value[int]{Name: "p" + strconv.Itoa(i), DefaultValue: v}
-				n = &c11Node{kind: 'Q', node: pv, pv: pv, outs: []c11In{pv, pv.Out()},
-					refs: []nodes.NodeOutputReference{pv, pv.Out(), pv.Outputs()[0].NodeOutput}, cached: func() int { return pv.Value() }}
-			}
-			n.pval = v
+			n := c11NewSource(c, plan.kind[i], i, v, false)
 			cs.nd = append(cs.nd, n)
 			fmt.Fprintf(&req, " %c %d", plan.kind[i], v)
 			continue
@@ -1748,16 +1907,9 @@ func c11SkipBuild(c *Ctx, fixed bool, desc []c11SkipNode) (*c11Case, string) {
 	fmt.Fprintf(&req, "%d", len(desc))
 	for i, d := range desc {
 		switch d.kind {
-		case 'P':
-			vn := nodes.Value(d.v)
-			cs.nd = append(cs.nd, &c11Node{kind: 'P', node: vn, vn: vn, pval: d.v, outs: []c11In{vn, vn.Out()},
-				refs: []nodes.NodeOutputReference{vn, vn.Out(), vn.Outputs()[0].NodeOutput}, cached: func() int { return vn.Value() }})
-			fmt.Fprintf(&req, " P %d", d.v)
-		case 'Q':
-			pv := &parameter.Value[int]{Name: "p" + strconv.Itoa(i), DefaultValue: d.v}
-			cs.nd = append(cs.nd, &c11Node{kind: 'Q', node: pv, pv: pv, pval: d.v, outs: []c11In{pv, pv.Out()},
-				refs: []nodes.NodeOutputReference{pv, pv.Out(), pv.Outputs()[0].NodeOutput}, cached: func() int { return pv.Value() }})
-			fmt.Fprintf(&req, " Q %d", d.v)
+		case 'P', 'Q':
+			cs.nd = append(cs.nd, c11NewSource(c, d.kind, i, d.v, fixed))
+			fmt.Fprintf(&req, " %c %d", d.kind, d.v)
 		case 'S', 'K', 'W', 'N':
 			lit := make([]c11In, len(d.sc))
 			for k, s := range d.sc {
@@ -2160,8 +2312,20 @@ func (t c11EM) Process() (int, error) {
 	return v, nil
 }
 
-func c11CompParam[T any](kind byte, i int, def T, enc func(T) int) *c11Node {
+func c11CompParam[T any](kind byte, i int, def T, enc func(T) int, fromJSON bool) *c11Node {
 	pv := &parameter.Value[T]{Name: "p" + strconv.Itoa(i), DefaultValue: def}
+	if fromJSON {
+		// what the graph loader does: currentValue becomes the applied value, defaultValue stays unused
+		cur, err := json.Marshal(def)
+		if err != nil {
+			panic(err)
+		}
+		pv = &parameter.Value[T]{}
+		body := fmt.Sprintf("{\"name\":\"p%d\",\"description\":\"c11\",\"currentValue\":%s,\"cli\":null}", i, cur)
+		if err := pv.FromJSON(jbtf.Decoder{}, []byte(body)); err != nil {
+			panic(err)
+		}
+	}
 	read := func() int { return enc(pv.Value()) }
 	return &c11Node{kind: kind, node: pv, comp: pv, cached: read, readFn: read, apply: pv.ApplyMessage, pval: enc(def)}
 }
@@ -2203,17 +2367,23 @@ func c11MsgHistory(c *Ctx) {
 	}
 	r.Shuffle(len(kinds), func(a, b int) { kinds[a], kinds[b] = kinds[b], kinds[a] })
 	var params, comps, ints []int // ints: nodes with an int output (sources of S nodes)
+	compJSON := func() bool {
+		if r.Intn(3) == 0 {
+			c.Note("msg.composite-parameter.FromJSON")
+			return true
+		}
+		c.Note("msg.composite-parameter.literal")
+		return false
+	}
 	for i, k := range kinds {
 		var n *c11Node
 		switch k {
 		case 'Q':
 			v := small()
-			if r.Intn(10) == 0 {
+			if r.Intn(7) == 0 {
 				v = 0
 			}
-			pv := &parameter.Value[int]{Name: "p" + strconv.Itoa(i), DefaultValue: v}
-			n = &c11Node{kind: 'Q', node: pv, pv: pv, pval: v, outs: []c11In{pv, pv.Out()}, apply: pv.ApplyMessage,
-				refs: []nodes.NodeOutputReference{pv, pv.Out(), pv.Outputs()[0].NodeOutput}, cached: func() int { return pv.Value() }}
+			n = c11NewSource(c, 'Q', i, v, false)
 			fmt.Fprintf(&req, " Q %d", v)
 			ints = append(ints, i)
 		case 'L':
@@ -2225,7 +2395,7 @@ func c11MsgHistory(c *Ctx) {
 			} else if r.Intn(2) == 0 {
 				l = []int{}
 			}
-			n = c11CompParam('L', i, l, c11EncList)
+			n = c11CompParam('L', i, l, c11EncList, compJSON())
 			n.cl = l
 			fmt.Fprintf(&req, " QL %s", c11Ints(l))
 			comps = append(comps, i)
@@ -2234,7 +2404,7 @@ func c11MsgHistory(c *Ctx) {
 			if r.Intn(8) == 0 {
 				v.B = 0
 			}
-			n = c11CompParam('T', i, v, c11EncAB)
+			n = c11CompParam('T', i, v, c11EncAB, compJSON())
 			n.cab = v
 			fmt.Fprintf(&req, " QS %d %d", v.A, v.B)
 			comps = append(comps, i)
@@ -2245,7 +2415,7 @@ func c11MsgHistory(c *Ctx) {
 					m["k"+strconv.Itoa(j)] = small()
 				}
 			}
-			n = c11CompParam('M', i, m, c11EncMap)
+			n = c11CompParam('M', i, m, c11EncMap, compJSON())
 			n.cm = m
 			fmt.Fprintf(&req, " QM %s", c11MapTokens(m))
 			comps = append(comps, i)
